@@ -192,10 +192,17 @@ def judge(ctx, case):
             ctx.seen('formats/codecs', '%s/%s' % ('1014' if blocked else 'vbs', enc))
             if want:
                 ctx.count('requests returning at least one row')
-            narrowed = dict(case, table=table, expanded=expanded, route=route)
+            # a packaged table may be asked for without handing over a layout at all: the reader then uses the packaged one
+            # (class without param_config, function with its default config, command with a configuration file that has no
+            # parameter tables in it)
+            fallback = table in ctx.packaged_tables and x['tables'][table] == ctx.packaged_tables[table] and rng.random() < 0.3
+            cfg_kw = {} if fallback else {'param_config': x['tables']}
+            if fallback:
+                ctx.count('requests leaving the layout to the packaged configuration: ' + route)
+            narrowed = dict(case, table=table, expanded=expanded, route=route, layout_left_to_packaged_configuration=fallback)
             if route == 'class':
-                kind, got = ctx.call(lambda: list(m.IpmParamReader(io.BytesIO(data), table, encoding=enc, param_config=x['tables'],
-                                                                  blocked=blocked, expanded=expanded)), budget=6000000)
+                kind, got = ctx.call(lambda: list(m.IpmParamReader(io.BytesIO(data), table, encoding=enc, blocked=blocked,
+                                                                  expanded=expanded, **cfg_kw)), budget=6000000)
                 ctx.count('IpmParamReader runs')
             elif route == 'csv_cli':
                 # the command the way the console script runs it: its own argument parser, real files, a configuration file
@@ -205,7 +212,7 @@ def judge(ctx, case):
                 with open(paths[0], 'wb') as f:
                     f.write(data)
                 with open(paths[2], 'w') as f:
-                    json.dump({'mci_parameter_tables': x['tables']}, f)
+                    json.dump({'output_data_elements': ['MTI']} if fallback else {'mci_parameter_tables': x['tables']}, f)
                 argv = [paths[0], table, '-o', paths[1], '--in-encoding', enc, '--out-encoding', 'utf8', '--config-file', paths[2]]
                 argv += ([] if blocked else ['--no1014blocking']) + (['--expanded'] if expanded else [])
 
@@ -220,8 +227,9 @@ def judge(ctx, case):
                 out = io.StringIO()
 
                 def tool():
-                    ctx.tool.mci_ipm_param_to_csv(in_param=io.BytesIO(data), out_csv=out, table_id=table, config=x['tables'],
-                                                  in_encoding=enc, no1014blocking=not blocked, expanded=expanded)
+                    ctx.tool.mci_ipm_param_to_csv(in_param=io.BytesIO(data), out_csv=out, table_id=table, in_encoding=enc,
+                                                  no1014blocking=not blocked, expanded=expanded,
+                                                  **({} if fallback else {'config': x['tables']}))
                     return list(csv.DictReader(io.StringIO(out.getvalue(), newline='')))
                 kind, got = ctx.call(tool, budget=6000000)
                 ctx.count('CSV tool runs')
@@ -272,6 +280,9 @@ def require(m):
     reasons = []
     if set(m['classes'].get('routes', ())) != {'class', 'csv_tool', 'csv_cli'}:
         reasons.append('class, function and command routes not all driven')
+    for route in ('class', 'csv_tool', 'csv_cli'):
+        if not m['counters'].get('requests leaving the layout to the packaged configuration: ' + route) and not m['violations']:
+            reasons.append('packaged table never requested without a layout through ' + route)
     if set(m['classes'].get('representations', ())) != {'compressed', 'expanded'}:
         reasons.append('both representations not driven')
     t = set(m['classes'].get('tables', ()))
